@@ -17,6 +17,8 @@ def guard_value(am, g, cfg, ctx):
     k = g[0]
     if k == "ge":
         return ctx.get(g[1], 0) >= g[2]
+    if k == "pz":
+        return ctx.get(0, 0) >= g[1]
     if k == "raises":
         return False
     if k == "missing":
